@@ -285,7 +285,7 @@ theorem mem_nodeIds_perm {t o : List SNode} (hp : o.Perm t) (i : Int) : i ∈ no
 theorem sortByParent_isParentSort (t : List SNode) : IsParentSort t (sortByParent t) :=
   ⟨isortBy_perm _ t, isortBy_pairwise _ t⟩
 
-/-- Any admissible `sort_values("parent_id")` order of a well-formed table gives a valid SWC table
+/-- HISTORICAL ordering: any admissible `sort_values("parent_id")` order of a well-formed table gives a valid SWC table
 exactly when every node that has a child has `parent_id < node_id`. -/
 theorem parentSort_valid_iff (lab : SNode → Option Int) {t o : List SNode} (hw : WF (forest t))
     (ho : IsParentSort t o) :
@@ -406,14 +406,42 @@ theorem parseRow_rowToks (r : SwcRow) : parseRow (rowToks r) = some r := by
   obtain ⟨i, l, x, y, z, rad, p⟩ := r
   cases l <;> cases rad <;> simp [parseRow, rowToks, tokInt?, tokNum?, numTok, optIntTok, optNumTok]
 
-theorem allSome_map_some {α β : Type} (f : α → Option β) (g : α → β) (l : List α) (h : ∀ a ∈ l, f a = some (g a)) :
-    allSome (l.map f) = some (l.map g) := by
-  induction l with
-  | nil => rfl
-  | cons a l ih =>
-    have ha := h a List.mem_cons_self
-    have := ih (fun b hb => h b (List.mem_cons_of_mem _ hb))
-    simp [allSome, ha, this]
+theorem sanitiseRows_map_some (l : List SwcRow) : sanitiseRows (l.map some) = l := by
+  have h : keptRows (l.map some) = l := by
+    unfold keptRows
+    induction l with
+    | nil => rfl
+    | cons a l ih => simp [List.filterMap_cons, ih]
+  unfold sanitiseRows
+  simp [h]
+
+theorem reRoot_id (kept : List SwcRow) (r : SwcRow) : (reRoot kept r).id = r.id := by
+  unfold reRoot; split <;> rfl
+
+/-- Ids of the complete rows survive `sanitise_nodes`, in order. -/
+theorem sanitiseRows_ids (rs : List (Option SwcRow)) :
+    (sanitiseRows rs).map (·.id) = (keptRows rs).map (·.id) := by
+  unfold sanitiseRows
+  split
+  · rfl
+  · rw [List.map_map]
+    exact List.map_congr_left (fun r _ => reRoot_id _ r)
+
+/-- If a row was dropped, no remaining row has a dangling parent: it is `-1` or the id of a remaining row. -/
+theorem sanitiseRows_no_dangling (rs : List (Option SwcRow)) (hdrop : (keptRows rs).length ≠ rs.length) :
+    ∀ r ∈ sanitiseRows rs, r.parent = -1 ∨ r.parent ∈ (sanitiseRows rs).map (·.id) := by
+  intro r hr
+  rw [sanitiseRows_ids]
+  unfold sanitiseRows at hr
+  rw [if_neg hdrop] at hr
+  obtain ⟨q, hq, rfl⟩ := List.mem_map.mp hr
+  unfold reRoot
+  split
+  · rename_i hany
+    right
+    obtain ⟨p, hp, he⟩ := List.any_eq_true.mp hany
+    exact List.mem_map.mpr ⟨p, hp, by simpa using he⟩
+  · left; rfl
 
 theorem filterMap_rowLine_render (rs : List SwcRow) : (rs.map renderRow).filterMap rowLine? = rs.map rowToks := by
   induction rs with
@@ -447,8 +475,10 @@ theorem parseSwc_written (hdr : List Line) (rs : List SwcRow) (hh : ∀ l ∈ hd
     parseSwc (hdr ++ rs.map renderRow) = some { props := hdr.findSome? metaLine?, rows := rs } := by
   unfold parseSwc metaOf
   rw [dataRows_append_rows hdr rs hh, headerOf_append_rows hdr rs hh, columnsOK_rowToks]
-  have := allSome_map_some (parseRow ∘ rowToks) id rs (fun r _ => parseRow_rowToks r)
-  rw [List.map_map, this]
+  have e : (rs.map rowToks).map parseRow = rs.map some := by
+    rw [List.map_map]
+    exact List.map_congr_left (fun r _ => parseRow_rowToks r)
+  rw [e, sanitiseRows_map_some]
   simp
 
 theorem headerLines_isHeader (wm : WriteMeta) (op : Opts) (sk : Skel) : ∀ l ∈ headerLines wm op sk, isHeader l = true := by
